@@ -37,6 +37,29 @@ class CrashHook(object):
         return model.run_op(name, args, impl)
 
 
+class Interrupt(KeyboardInterrupt):
+    """SIGINT delivered to the modelled process: unlike Crash the interpreter keeps running, so every
+    ``finally`` / ``except`` clean-up handler of trash-cli executes (and makes system calls) while it unwinds"""
+
+
+class InterruptHook(object):
+    """deliver one KeyboardInterrupt: instead of the k-th system call (after=False: the signal arrived just before
+    it) or right after the k-th system call has returned successfully (after=True)"""
+
+    def __init__(self, k, after):
+        self.k = k
+        self.after = after
+        self.fired = False
+
+    def __call__(self, model, name, args, impl):
+        if not self.fired and model.nops == self.k:
+            self.fired = True
+            if self.after:
+                model.run_op(name, args, impl)  # an OSError of the call itself wins: no interrupt then
+            raise Interrupt()
+        return model.run_op(name, args, impl)
+
+
 class FaultHook(object):
     """fail the k-th system call with errno e (optionally a second one, optionally
     persistent: every later call of the same kind under the same directory fails too)"""
@@ -94,6 +117,68 @@ class PathFaultHook(object):
         return model.run_op(name, args, impl)
 
 
+class DirFaultHook(object):
+    """one cause, many faulted calls: a directory that cannot be modified (no write permission, immutable,
+    read-only or full file system).  Every system call that would add, remove or rename an entry of the directory
+    ``dpath`` -- or, with ``volume``, of any directory on that volume -- fails with ``errno_``"""
+
+    def __init__(self, dpath=None, errno_=13, volume=None):
+        self.dpath, self.errno_, self.volume = dpath, errno_, volume
+        self.injected = []
+
+    def _parents(self, model, name, args):
+        from .posix_model import _strip_for_rename
+        import os as _os
+        out = []
+
+        def parent(path, dir_fd=None):
+            try:
+                r = model.resolve(_strip_for_rename(path), False, model._base(dir_fd))
+            except OSError:
+                return None
+            return r
+        if name == 'mkdir':
+            out.append(parent(args[0]))
+        elif name in ('unlink', 'rmdir'):
+            out.append(parent(args[0], args[1] if len(args) > 1 else None))
+        elif name == 'symlink':
+            out.append(parent(args[1]))
+        elif name == 'rename':
+            a, b = parent(args[0]), parent(args[1])
+            # (Linux answers EXDEV before it looks at permissions or at a read-only mount)
+            if a is not None and b is not None and model.dev_of(tuple(a.cpath[:-1])) != model.dev_of(tuple(b.cpath[:-1])):
+                return []
+            out += [a, b]
+        elif name == 'open' and (args[1] & _os.O_CREAT):
+            r = parent(args[0], args[3] if len(args) > 3 else None)
+            if r is not None and r.node is None:
+                out.append(r)
+        return [r for r in out if r is not None and r.parent is not None]
+
+    def __call__(self, model, name, args, impl):
+        if name in ('mkdir', 'unlink', 'rmdir', 'symlink', 'rename', 'open'):
+            hit = False
+            for r in self._parents(model, name, args):
+                if self.volume is not None:
+                    if model.dev_of(tuple(r.cpath[:-1])) == model.dev_of(tuple(model.resolve(self.volume, True).cpath)):
+                        hit = True
+                else:
+                    try:
+                        d = model.resolve(self.dpath, True).node
+                    except OSError:
+                        d = None
+                    if d is not None and r.parent is d:
+                        hit = True
+            if hit:
+                self.injected.append((model.nops, name, self.errno_))
+                model.nops += 1
+                model.oplog.append((name, repr(args)[:80], 'FAULT', self.errno_))
+                if model.nops > model.max_ops:
+                    raise StepBudgetExceeded(model.nops)
+                raise oserr(self.errno_, args[0] if isinstance(args[0], str) else None)
+        return model.run_op(name, args, impl)
+
+
 class OneShotFault(object):
     """fail the n-th system call named ``opname`` that satisfies ``pred(args)`` with ``errno_``, once"""
 
@@ -141,6 +226,9 @@ def run_model(world, steps, hook=None, uid=UID, model=None, max_ops=None):
                 r = commands.run_on_model(m, st).as_dict()
             except Crash:
                 r = {'crashed': True, 'out': '', 'err': '', 'exit': None, 'exc': None}
+            except Interrupt:
+                # the KeyboardInterrupt left main(): the interpreter prints a traceback and dies of SIGINT
+                r = {'interrupted': True, 'out': '', 'err': '', 'exit': 130, 'exc': None}
             except StepBudgetExceeded:
                 r = {'nonterminating': True, 'out': '', 'err': '', 'exit': None, 'exc': None}
             finally:
